@@ -13,6 +13,7 @@ import (
 	"runtime"
 	"runtime/debug"
 	"sort"
+	"strconv"
 	"sync/atomic"
 	"syscall"
 	"time"
@@ -184,8 +185,20 @@ func (w *W) Pick(q, t int) int {
 	if w.Quick() {
 		return q
 	}
+	if t >= 1000 {
+		// a budget (a number of seeded cases), not a size: the thorough tier
+		// multiplies it (VERIF_DEPTH, default 3)
+		return t * thoroughDepth
+	}
 	return t
 }
+
+var thoroughDepth = func() int {
+	if v, err := strconv.Atoi(os.Getenv("VERIF_DEPTH")); err == nil && v >= 1 && v <= 100 {
+		return v
+	}
+	return 3
+}()
 
 // Owns reports whether this worker owns key (without marking it seen).
 func (w *W) Owns(key string) bool {
